@@ -3,6 +3,7 @@
 from __future__ import annotations
 
 import ast
+import copy
 
 from sa.cfg import CFG
 from sa.cfg import forward
@@ -473,6 +474,11 @@ def check_unconditional_contributions(prog: Program, res: Result, rule: str) -> 
                             break
                     child = a
                 what = f"{fi.qualname}: contribution of self.{sorted(attrs)[0]} is not conditional on another attribute"
+                # a comprehension that filters what it hands out: the elements dropped are still evaluated at run time
+                filt = [g for c in ast.walk(v) if isinstance(c, (ast.GeneratorExp, ast.ListComp, ast.SetComp)) for g in c.generators if g.ifs and not all(norm(t) == norm(c.elt) or (isinstance(t, ast.Compare) and len(t.ops) == 1 and isinstance(t.ops[0], ast.IsNot) and norm(t.left) == norm(c.elt) and isinstance(t.comparators[0], ast.Constant) and t.comparators[0].value is None) for t in g.ifs)]  # `x for … if x` / `if x is not None`: the element's own presence
+                if filt:
+                    res.fail(rule, file=fi.file, line=getattr(node, "lineno", fi.node.lineno), qualname=fi.qualname, construct=f"{fi.qualname}: self.{sorted(attrs)[0]} contributed through a filter `if {norm(filt[0].ifs[0], 40)}`", message=f"{fi.qualname} hands out `{norm(v, 70)}`: elements of self.{sorted(attrs)[0]} that fail `{norm(filt[0].ifs[0], 50)}` are evaluated when the tag runs but never reach analysis or extraction (a range with variable bounds, a template string with `${{…}}`, a filtered literal)", what=what)
+                    continue
                 if foreign is None:
                     res.ok(rule, f"{fi.file}:{getattr(node, 'lineno', 0)} {fi.qualname}", what, "under its own presence test at most")
                 else:
@@ -816,3 +822,497 @@ def check_env_globals_merge_shape(prog: Program, res: Result, rule: str) -> None
         res.ok(rule, f"{emg.file}:{emg.node.lineno} Environment.make_globals", what, "plain merge")
     else:
         res.fail(rule, file=emg.file, line=emg.node.lineno, qualname="Environment.make_globals", construct=f"Environment.make_globals returns {[norm(r, 60) for r in rets]}", message="the environment/template globals are filtered or transformed while they are merged: a variable that exists in the data with value nil (or any filtered value) is missing from the scope - undefined under a strict policy although it exists", what=what)
+
+
+# ---------------------------------------------------------------------------------------------------------------------------------
+# `unless` is `if` with the first test negated - and nothing else (sibling agreement, Engler: functions in the same slot must agree)
+# ---------------------------------------------------------------------------------------------------------------------------------
+class _UnlessAsIf(ast.NodeTransformer):
+    """Spell the unless classes, tag names and end markers as their `if` counterparts; constructor calls of liquid2 classes get
+    their arguments by keyword (so `BlockNode(tok, nodes)` and `BlockNode(token=tok, nodes=nodes)` are one call)."""
+
+    def __init__(self, prog: Program) -> None:
+        self.prog = prog
+
+    def visit_Name(self, node: ast.Name) -> ast.AST:
+        node.id = node.id.replace("Unless", "If").replace("unless", "if")
+        return node
+
+    def visit_Attribute(self, node: ast.Attribute) -> ast.AST:
+        self.generic_visit(node)
+        node.attr = node.attr.replace("Unless", "If").replace("unless", "if")
+        return node
+
+    def visit_Constant(self, node: ast.Constant) -> ast.AST:
+        if isinstance(node.value, str):
+            node.value = node.value.replace("unless", "if").replace("Unless", "If")
+        return node
+
+    def visit_Call(self, node: ast.Call) -> ast.AST:
+        self.generic_visit(node)
+        if isinstance(node.func, ast.Name) and node.func.id in ("BlockNode", "ConditionalBlockNode", "IfNode"):
+            ci = next((c for m in self.prog.modules.values() for c in m.classes.values() if c.name == node.func.id), None)
+            init = ci.methods.get("__init__") if ci is not None else None
+            if init is not None:
+                params = [a.arg for a in init.node.args.args][1:]
+                if len(node.args) <= len(params) and not any(isinstance(a, ast.Starred) for a in node.args):
+                    kws = [ast.keyword(arg=params[i], value=a) for i, a in enumerate(node.args)] + list(node.keywords)
+                    node.args = []
+                    node.keywords = sorted(kws, key=lambda k: k.arg or "")
+        return node
+
+
+def check_unless_mirrors_if(prog: Program, res: Result, rule: str, *, only: tuple[str, ...] | None = None) -> None:
+    """UnlessNode / UnlessTag against IfNode / IfTag, method by method (the rule text is registered by the caller)."""
+    from sa.twins import diff_functions
+    from sa.twins import normalise
+
+    um, im = prog.mod("liquid2/builtin/tags/unless_tag.py"), prog.mod("liquid2/builtin/tags/if_tag.py")
+    n = 0
+    for ucls, icls in (("UnlessNode", "IfNode"), ("UnlessTag", "IfTag")):
+        uc, ic = um.classes.get(ucls), im.classes.get(icls)
+        if uc is None or ic is None:
+            raise AnalysisError(f"{ucls} / {icls} vanished")
+        for name in sorted(set(uc.methods) | set(ic.methods)):
+            if only is not None and name not in only:
+                continue
+            uf, if_ = uc.methods.get(name), ic.methods.get(name)
+            what = f"{ucls}.{name} is {icls}.{name} with the first test negated"
+            if uf is None or if_ is None:
+                have, lack = (ucls, icls) if uf is not None else (icls, ucls)
+                fi = uf or if_
+                res.fail(rule, file=fi.file, line=fi.node.lineno, qualname=fi.qualname, construct=f"{have}.{name} has no counterpart in {lack}", message=f"{have} defines {name} and {lack} does not: the two tags differ by the negation of the first condition only, so one of them treats its blocks differently", what=what)
+                continue
+            n += 1
+            ut = _UnlessAsIf(prog).visit(copy.deepcopy(uf.node))
+            it = _UnlessAsIf(prog).visit(copy.deepcopy(if_.node))
+            # the one intended difference: `if not <cond>` in the render methods
+            if name.startswith("render_to_output"):
+                for x in ast.walk(ut):
+                    if isinstance(x, ast.If) and isinstance(x.test, ast.UnaryOp) and isinstance(x.test.op, ast.Not):
+                        x.test = x.test.operand
+                        break
+            un, in_ = normalise(ut), normalise(it)
+            # statements before the first compound statement commute when they are independent: compare them as a set
+            def _split(fn: ast.FunctionDef) -> tuple[list[str], list[ast.stmt]]:
+                head: list[str] = []
+                i = 0
+                while i < len(fn.body) and not isinstance(fn.body[i], (ast.While, ast.For, ast.With, ast.Try)):
+                    head.append(ast.dump(fn.body[i]))
+                    i += 1
+                return sorted(head), fn.body[i:]
+
+            hu, tu = _split(un)
+            hi, ti = _split(in_)
+            problems: list[str] = []
+            if hu != hi:
+                a_only = [x for x in un.body if ast.dump(x) in set(hu) - set(hi)]
+                b_only = [x for x in in_.body if ast.dump(x) in set(hi) - set(hu)]
+                problems.append(f"`{norm(a_only[0], 80) if a_only else '<nothing>'}` vs `{norm(b_only[0], 80) if b_only else '<nothing>'}`")
+            fu, fi2 = copy.copy(un), copy.copy(in_)
+            fu.body, fi2.body = tu or [ast.Pass()], ti or [ast.Pass()]
+            for d in diff_functions(fu, fi2):
+                problems.append(f"`{d.sync_text[:80]}` vs `{d.async_text[:80]}`")
+            site = f"{uf.file}:{uf.node.lineno} {uf.qualname}"
+            if problems:
+                res.fail(rule, file=uf.file, line=uf.node.lineno, qualname=uf.qualname, construct=f"{ucls}.{name} differs from {icls}.{name}", message=f"{ucls}.{name} and {icls}.{name} differ beyond the negated first test: {problems[0]} ({len(problems)} difference(s)) - `unless` parses, prints, reports or renders its blocks differently from `if`", what=what)
+            else:
+                res.ok(rule, site, what, "equal after renaming, keyword-normalised constructor calls and one stripped `not`")
+    res.floor(rule, "unless/if method pairs", n, 5 if only is None else 1)
+
+
+def check_source_presence_by_key(prog: Program, res: Result, rule: str) -> None:
+    """A loader decides 'no such template' from the failed lookup (KeyError, `is None`, a missing file), never from the truth value
+    of the source text: the empty string is a template - the root of an inheritance chain may well be empty."""
+    n = 0
+    for mod in prog.modules.values():
+        if not (mod.relpath.startswith("liquid2/builtin/loaders/") or mod.relpath == "liquid2/loader.py"):
+            continue
+        for f in mod.functions.values():
+            if f.name not in ("get_source", "get_source_async", "load", "load_async"):
+                continue
+            n += 1
+            looked: dict[str, ast.AST] = {}
+            for a in ast.walk(f.node):
+                if isinstance(a, ast.Assign) and len(a.targets) == 1:
+                    v = a.value.value if isinstance(a.value, ast.Await) else a.value
+                    tgt = a.targets[0]
+                    names = [tgt.id] if isinstance(tgt, ast.Name) else ([e.id for e in tgt.elts[:1] if isinstance(e, ast.Name)] if isinstance(tgt, ast.Tuple) else [])
+                    is_lookup = (isinstance(v, ast.Subscript) and not isinstance(v.slice, ast.Slice)) or (isinstance(v, ast.Call) and isinstance(v.func, ast.Attribute) and v.func.attr in ("get", "pop", "read", "read_text", "get_source", "get_source_async"))
+                    if is_lookup:
+                        for nm in names:
+                            looked[nm] = v
+            bad = None
+            for t in ast.walk(f.node):
+                test = t.test if isinstance(t, (ast.If, ast.IfExp, ast.While)) else None
+                if test is None:
+                    continue
+                for x in ast.walk(test):
+                    if isinstance(x, ast.BoolOp):
+                        ops = x.values
+                    elif x is test:
+                        ops = [x]
+                    else:
+                        continue
+                    for o in ops:
+                        o2 = o.operand if isinstance(o, ast.UnaryOp) and isinstance(o.op, ast.Not) else o
+                        if isinstance(o2, ast.Name) and o2.id in looked:
+                            bad = (t, norm(test, 60), o2.id)
+                        if isinstance(o2, ast.Compare) and isinstance(o2.left, ast.Name) and o2.left.id in looked and isinstance(o2.ops[0], (ast.Eq, ast.NotEq)) and isinstance(o2.comparators[0], ast.Constant) and o2.comparators[0].value == "":
+                            bad = (t, norm(test, 60), o2.left.id)
+            site = f"{f.file}:{f.node.lineno} {f.qualname}"
+            what = f"{f.qualname}: no truth test on the source text it found"
+            if bad:
+                res.fail(rule, file=f.file, line=bad[0].lineno, qualname=f.qualname, construct=f"{f.qualname}: truth test on the looked-up source `{bad[2]}`", message=f"{f.qualname} tests `{bad[1]}` on the source it looked up: a template whose text is the empty string is reported as not found - a chain whose root parent is '' raises TemplateNotFoundError instead of rendering the blocks", what=what)
+            else:
+                res.ok(rule, site, what, f"{len(looked)} looked-up value(s), none tested for truth")
+    res.floor(rule, "loader source functions", n, 10)
+
+
+def check_children_not_partial_gated(prog: Program, res: Result, rule: str) -> None:
+    """`include_partials=False` hides what a node *loads* (another template's nodes), never what it *holds*: a children[_async]()
+    that yields one of its own fields only `if include_partials` makes the blocks written inside that tag invisible to the
+    inheritance walk (`_find_inheritance_nodes(..., include_partials=False)`), which then resolves blocks as if they were not there."""
+    node = prog.cls("liquid2.ast.Node")
+    n = 0
+    for fi in sorted(prog.all_functions(), key=lambda f: (f.file, f.node.lineno)):
+        if fi.cls is None or not prog.is_subclass(fi.cls, node) or fi.name not in ("children", "children_async"):
+            continue
+        n += 1
+        bad = None
+        for i in ast.walk(fi.node):
+            if not (isinstance(i, (ast.If, ast.IfExp)) and "include_partials" in {x.id for x in ast.walk(i.test) if isinstance(x, ast.Name)}):
+                continue
+            arms = (i.body + i.orelse) if isinstance(i, ast.If) else [i.body, i.orelse]
+            for b in arms:
+                for y in ast.walk(b):
+                    v = y.value if isinstance(y, (ast.Yield, ast.YieldFrom, ast.Return)) else None
+                    if v is None:
+                        continue
+                    vals = list(v.elts) if isinstance(v, (ast.List, ast.Tuple)) else [v]
+                    own = []
+                    for e in vals:
+                        e = e.value if isinstance(e, ast.Starred) else e
+                        base = e
+                        while isinstance(base, (ast.Attribute, ast.Subscript)):
+                            base = base.value
+                        if isinstance(e, (ast.Attribute, ast.Subscript)) and isinstance(base, ast.Name) and base.id == "self":
+                            own.append(e)
+                    if own:
+                        bad = (y, norm(own[0]))
+        site = f"{fi.file}:{fi.node.lineno} {fi.qualname}"
+        what = f"{fi.qualname}: the node's own blocks are children whatever include_partials says"
+        if bad:
+            res.fail(rule, file=fi.file, line=bad[0].lineno, qualname=fi.qualname, construct=f"{fi.qualname}: own field `{bad[1]}` is a child only if include_partials", message=f"{fi.qualname} hands out `{bad[1]}` only when include_partials is true: the inheritance walk runs with include_partials=False, so a `block` or `extends` written inside this tag is not found - the override is ignored, block.super skips a level, and a duplicate or required block goes unnoticed", what=what)
+        else:
+            res.ok(rule, site, what, "only loaded templates are gated")
+    res.floor(rule, "children overrides", n, 20)
+
+
+def check_loader_ctor_forwarding(prog: Program, res: Result, rule: str) -> None:
+    """What a caller configures on a loader reaches the class that implements it: every parameter of a loader's __init__ that one of
+    its base classes' __init__ also takes is handed to a base initialiser as the bare name (not dropped, not recomputed), and every
+    other parameter is read somewhere in the body."""
+    n = 0
+    for mod in sorted(prog.modules.values(), key=lambda m: m.relpath):
+        if not (mod.relpath.startswith("liquid2/builtin/loaders/") or mod.relpath == "liquid2/loader.py"):
+            continue
+        for ci in mod.classes.values():
+            init = ci.methods.get("__init__")
+            if init is None:
+                continue
+            params = [a.arg for a in init.node.args.posonlyargs + init.node.args.args + init.node.args.kwonlyargs if a.arg != "self"]
+            base_params: dict[str, str] = {}
+            for b in prog.mro(ci)[1:]:
+                bi = b.methods.get("__init__")
+                if bi is not None:
+                    for a in bi.node.args.posonlyargs + bi.node.args.args + bi.node.args.kwonlyargs:
+                        if a.arg != "self":
+                            base_params.setdefault(a.arg, b.name)
+            init_calls = [c for c in ast.walk(init.node) if isinstance(c, ast.Call) and isinstance(c.func, ast.Attribute) and c.func.attr == "__init__"]
+            forwarded: dict[str, ast.AST] = {}
+            for c in init_calls:
+                callee_params: list[str] = []
+                if isinstance(c.func.value, ast.Name):
+                    bc = next((b for b in prog.mro(ci)[1:] if b.name == c.func.value.id), None)
+                    if bc is not None and "__init__" in bc.methods:
+                        callee_params = [a.arg for a in bc.methods["__init__"].node.args.args]  # includes self, matching the explicit self argument
+                for i, a in enumerate(c.args):
+                    if i < len(callee_params):
+                        forwarded[callee_params[i]] = a
+                    elif isinstance(a, ast.Name):
+                        forwarded.setdefault(a.id, a)
+                for k in c.keywords:
+                    if k.arg:
+                        forwarded[k.arg] = k.value
+            read = {x.id for x in ast.walk(init.node) if isinstance(x, ast.Name) and isinstance(x.ctx, ast.Load)}
+            for p in params:
+                n += 1
+                site = f"{ci.file}:{init.node.lineno} {ci.name}.__init__"
+                what = f"{ci.name}.__init__: `{p}` reaches the class that implements it unchanged"
+                if p in base_params and init_calls:
+                    v = forwarded.get(p)
+                    if v is None:
+                        res.fail(rule, file=ci.file, line=init.node.lineno, qualname=f"{ci.name}.__init__", construct=f"{ci.name}.__init__: `{p}` is not handed to {base_params[p]}.__init__", message=f"{ci.name}.__init__ accepts `{p}` but does not pass it to {base_params[p]}.__init__, which implements it: the loader silently runs with the default (cache keys without the namespace, another capacity, no reload checks)", what=what)
+                    elif not (isinstance(v, ast.Name) and v.id == p):
+                        res.fail(rule, file=ci.file, line=v.lineno, qualname=f"{ci.name}.__init__", construct=f"{ci.name}.__init__: `{p}` is recomputed on its way to {base_params[p]}.__init__", message=f"{ci.name}.__init__ passes `{norm(v, 50)}` for `{p}` to {base_params[p]}.__init__: the configured value is replaced (a capacity that grows with the number of templates never evicts, so stale entries that a cache of the requested size would have re-read are served)", what=what)
+                    else:
+                        res.ok(rule, site, what, f"passed as `{p}` to {base_params[p]}.__init__")
+                elif p not in read:
+                    res.fail(rule, file=ci.file, line=init.node.lineno, qualname=f"{ci.name}.__init__", construct=f"{ci.name}.__init__: `{p}` is never read", message=f"{ci.name}.__init__ accepts `{p}` and never uses it: the caller's setting has no effect", what=what)
+                else:
+                    res.ok(rule, site, what, "read in the constructor")
+    res.floor(rule, "loader constructor parameters", n, 25)
+
+
+def check_integer_exactness(prog: Program, res: Result, rule: str) -> None:
+    """Integers are exact at any size: where a math filter knows both operands are ints, what it returns is one integer operator applied
+    to the two operands themselves (`+ - * // %`) - never a value that went through float, true division or Decimal (53 bits / 28 digits)."""
+    from checks.C15 import _path_condition
+
+    mod = prog.mod("liquid2/builtin/filters/math.py")
+    n = 0
+    INT_OPS = (ast.Add, ast.Sub, ast.Mult, ast.FloorDiv, ast.Mod)
+
+    def known_int(fi, node) -> set[str]:  # noqa: ANN001
+        out: set[str] = set()
+
+        def leaves(t: ast.expr, pol: bool) -> None:
+            if isinstance(t, ast.UnaryOp) and isinstance(t.op, ast.Not):
+                leaves(t.operand, not pol)
+            elif isinstance(t, ast.BoolOp) and ((isinstance(t.op, ast.And) and pol) or (isinstance(t.op, ast.Or) and not pol)):
+                for v in t.values:
+                    leaves(v, pol)
+            elif pol and isinstance(t, ast.Call) and isinstance(t.func, ast.Name) and t.func.id == "isinstance" and len(t.args) == 2 and isinstance(t.args[0], ast.Name) and norm(t.args[1]) == "int":
+                out.add(t.args[0].id)
+
+        for t, pol in _path_condition(fi.module, fi.node, node):
+            leaves(t, pol)
+        return out
+
+    for fi in sorted(mod.functions.values(), key=lambda f: f.node.lineno):
+        params = [a.arg for a in fi.node.args.args]
+        if len(params) != 2:
+            continue
+        arith = [b for b in ast.walk(fi.node) if isinstance(b, ast.BinOp) and isinstance(b.op, (*INT_OPS, ast.Div))]
+        if not arith:
+            continue
+        n += 1
+        site = f"{fi.file}:{fi.node.lineno} {fi.qualname}"
+        what = f"{fi.qualname}: two ints give the exact integer result"
+        int_returns = [r for r in ast.walk(fi.node) if isinstance(r, ast.Return) and r.value is not None and set(params) <= known_int(fi, r)]
+        if not int_returns:
+            res.fail(rule, file=fi.file, line=fi.node.lineno, qualname=fi.qualname, construct=f"{fi.qualname}: no return under `isinstance({params[0]}, int) and isinstance({params[1]}, int)`", message=f"{fi.qualname} has no branch of its own for two integer operands: integers then share the float / Decimal path, exact to 53 bits or 28 digits only (`{{{{ 12345678901234567890123456789012345 | {fi.name.rstrip('_')}: 1 }}}}`)", what=what)
+            continue
+        bad = [r for r in int_returns if not (isinstance(r.value, ast.BinOp) and isinstance(r.value.op, INT_OPS) and isinstance(r.value.left, ast.Name) and isinstance(r.value.right, ast.Name) and {r.value.left.id, r.value.right.id} == set(params))]
+        if bad:
+            res.fail(rule, file=fi.file, line=bad[0].lineno, qualname=fi.qualname, construct=f"{fi.qualname}: the integer branch returns something else than an integer operator on the operands", message=f"{fi.qualname} returns `{norm(bad[0].value, 50)}` for two integer operands: a result converted from a float or a Decimal is exact to 53 bits / 28 digits only and truncates toward zero where `//` floors (`-9 | divided_by: 2`, `10**30 + 1 | plus: 0`)", what=what)
+        else:
+            res.ok(rule, site, what, f"`{norm(int_returns[0].value)}` under the two isinstance tests")
+    res.floor(rule, "binary math filters", n, 5)
+
+
+def check_loader_twins(prog: Program, res: Result, rule: str) -> None:
+    """get_source / load and their *_async twins in liquid2/loader.py and the built-in loaders agree modulo await (= C13.R4)."""
+    from sa import twins
+
+    n = 0
+    for fs, fa in twins.find_pairs(prog):
+        if not (fa.module.relpath.startswith("liquid2/builtin/loaders/") or fa.module.relpath == "liquid2/loader.py"):
+            continue
+        n += 1
+        site = f"{fa.file}:{fa.node.lineno} {fa.qualname}"
+        what = f"{fa.qualname} == {fs.qualname} modulo await"
+        if twins.is_default_delegation(fa.node, fs.name):
+            res.ok(rule, site, what, "default delegation")
+            continue
+        diffs = twins.diff_functions(twins.normalise(fs.node), twins.normalise(fa.node))
+        if not diffs:
+            res.ok(rule, site, what, "identical after normalisation")
+        else:
+            d = diffs[0]
+            res.fail(rule, file=fa.file, line=d.async_line or fa.node.lineno, qualname=fa.qualname, construct=f"{fa.qualname}: sync `{d.sync_text[:60]}` vs async `{d.async_text[:60]}`", message=f"{fa.qualname} differs from {fs.qualname}: sync does `{d.sync_text[:80]}`, async does `{d.async_text[:80]}` - a partial, parent or included template loaded on the async path can be another source than the one the sync path loads (a loader that routes on the `tag` / context arguments), so the two analyses and renders disagree", what=what)
+    res.floor(rule, "loader twins", n, 8)
+
+
+def check_cache_read_ownership(prog: Program, res: Result, rule: str) -> None:
+    """Only CachingLoaderMixin reads its template cache: the hit path there is the one that compares the cached template's environment
+    and freshness before handing it out. A `self.cache[...]` / `self.cache.get(...)` anywhere else returns templates past those tests."""
+    mixin = prog.cls("liquid2.builtin.loaders.mixins.CachingLoaderMixin")
+    inside = 0
+    n = 0
+    for fi in sorted(prog.all_functions(), key=lambda f: (f.file, f.node.lineno)):
+        for x in ast.walk(fi.node):
+            read = None
+            if isinstance(x, ast.Subscript) and isinstance(x.ctx, ast.Load) and isinstance(x.value, ast.Attribute) and x.value.attr == "cache":
+                read = x
+            elif isinstance(x, ast.Call) and isinstance(x.func, ast.Attribute) and x.func.attr in ("get", "pop", "values", "items", "setdefault") and isinstance(x.func.value, ast.Attribute) and x.func.value.attr == "cache":
+                read = x
+            if read is None or prog.enclosing_function(fi.module, read) is not fi:
+                continue
+            n += 1
+            if fi.cls is mixin:
+                inside += 1
+                continue
+            res.fail(rule, file=fi.file, line=read.lineno, qualname=fi.qualname, construct=f"{fi.qualname}: reads the template cache outside CachingLoaderMixin", message=f"{fi.qualname} takes a template out of the cache with `{norm(read, 60)}`: the mixin's hit path (`_check_cache`) is where the cached template's environment and freshness are compared - a template cached by another Environment is handed out with that environment's limits, filters and escaping", what=f"{fi.qualname}: no cache read of its own")
+    res.ok(rule, f"{mixin.file}:{mixin.node.lineno} CachingLoaderMixin", "the template cache is read only inside CachingLoaderMixin", f"{inside} read(s), all in the mixin")
+    res.floor(rule, "cache reads in CachingLoaderMixin", inside, 2)
+
+
+def _bool_fn(e: ast.AST, atoms: list[str]):  # noqa: ANN202
+    """A propositional reading of *e*: and / or / not over atoms; `!=`, `not in`, `is not` are the negations of their positive forms."""
+    if isinstance(e, ast.BoolOp):
+        fs = [_bool_fn(v, atoms) for v in e.values]
+        return (lambda env: all(f(env) for f in fs)) if isinstance(e.op, ast.And) else (lambda env: any(f(env) for f in fs))
+    if isinstance(e, ast.UnaryOp) and isinstance(e.op, ast.Not):
+        f = _bool_fn(e.operand, atoms)
+        return lambda env: not f(env)
+    if isinstance(e, ast.Compare) and len(e.ops) == 1 and isinstance(e.ops[0], (ast.NotEq, ast.NotIn, ast.IsNot)):
+        pos = copy.deepcopy(e)
+        pos.ops = [{ast.NotEq: ast.Eq, ast.NotIn: ast.In, ast.IsNot: ast.Is}[type(e.ops[0])]()]
+        key = norm(pos, 300)
+        if key not in atoms:
+            atoms.append(key)
+        return lambda env: not env[key]
+    key = norm(e, 300)
+    if key not in atoms:
+        atoms.append(key)
+    return lambda env: env[key]
+
+
+def check_reject_complements_where(prog: Program, res: Result, rule: str) -> None:
+    """`reject` keeps exactly the items `where` drops: branch by branch the condition of RejectFilter's comprehension is the negation of
+    WhereFilter's (truth table over the shared atoms: is_undefined(r), is_truthy(r), `… == value`, `… in (False, None)`), over the same
+    items. An item whose property is missing is undefined: `where` drops it, so `reject` keeps it - whatever the undefined policy."""
+    import itertools
+
+    mod = prog.mod("liquid2/builtin/filters/filtering_filters.py")
+    w, r = mod.classes.get("WhereFilter"), mod.classes.get("RejectFilter")
+    if w is None or r is None or "__call__" not in w.methods or "__call__" not in r.methods:
+        raise AnalysisError("WhereFilter / RejectFilter.__call__ vanished")
+    wf, rf = w.methods["__call__"], r.methods["__call__"]
+
+    def comps(fi):  # noqa: ANN001, ANN202
+        return [x.value for x in ast.walk(fi.node) if isinstance(x, ast.Return) and isinstance(x.value, ast.ListComp)]
+
+    wc, rc = sorted(comps(wf), key=lambda c: c.lineno), sorted(comps(rf), key=lambda c: c.lineno)
+    res.floor(rule, "comprehension returns of where", len(wc), 3)
+    if len(wc) != len(rc):
+        res.fail(rule, file=rf.file, line=rf.node.lineno, qualname=rf.qualname, construct="RejectFilter.__call__: not the same branches as WhereFilter.__call__", message=f"where has {len(wc)} filtering returns, reject has {len(rc)}: the two no longer partition the items case by case", what="reject mirrors where branch by branch")
+        return
+    for a, b in zip(wc, rc):
+        site = f"{rf.file}:{b.lineno} {rf.qualname}"
+        what = f"RejectFilter line {b.lineno}: keeps exactly what WhereFilter line {a.lineno} drops"
+        if norm(a.elt) != norm(b.elt) or len(a.generators) != 1 or len(b.generators) != 1 or norm(a.generators[0].iter, 300) != norm(b.generators[0].iter, 300) or norm(a.generators[0].target) != norm(b.generators[0].target):
+            res.fail(rule, file=rf.file, line=b.lineno, qualname=rf.qualname, construct=f"RejectFilter.__call__: branch {wc.index(a) + 1} iterates other items than where", message=f"reject iterates `{norm(b.generators[0].iter, 60)}` / yields `{norm(b.elt)}` where `where` uses `{norm(a.generators[0].iter, 60)}` / `{norm(a.elt)}`", what=what)
+            continue
+        atoms: list[str] = []
+        fa = _bool_fn(ast.BoolOp(op=ast.And(), values=list(a.generators[0].ifs)) if len(a.generators[0].ifs) != 1 else a.generators[0].ifs[0], atoms)
+        fb = _bool_fn(ast.BoolOp(op=ast.And(), values=list(b.generators[0].ifs)) if len(b.generators[0].ifs) != 1 else b.generators[0].ifs[0], atoms)
+        bad = None
+        for vals in itertools.product((False, True), repeat=len(atoms)):
+            env = dict(zip(atoms, vals))
+            if fa(env) == fb(env):
+                bad = env
+                break
+        if bad is None:
+            res.ok(rule, site, what, f"negation over {len(atoms)} atom(s): {', '.join(atoms)[:80]}")
+        else:
+            side = "both keep" if fa(bad) else "both drop"
+            res.fail(rule, file=rf.file, line=b.lineno, qualname=rf.qualname, construct=f"RejectFilter.__call__: branch {wc.index(a) + 1} is not the complement of where", message=f"where keeps an item if `{norm(a.generators[0].ifs[0], 60)}`, reject if `{norm(b.generators[0].ifs[0], 60)}`: with {', '.join(f'{k}={v}' for k, v in bad.items())} {side} the item - an item whose property is missing (undefined, which behaves as nil) is neither selected nor rejected", what=what)
+
+
+def check_load_hands_through(prog: Program, res: Result, rule: str, field: str) -> None:
+    """BaseLoader.load[_async] hands what get_source() returned to Environment.from_string untouched. field='source': the text that is
+    tokenized is the text the loader returned (offsets in tokens, spans and errors refer to it). field='matter': the loader's matter
+    mapping - normally the caller's own dict, held by reference - is only passed on as overlay_data, never rewritten or handed to a helper."""
+    base = prog.cls("liquid2.loader.BaseLoader")
+    pos = {"source": 0, "matter": 3}[field]
+    n = 0
+    for nm in ("load", "load_async"):
+        f = base.methods.get(nm)
+        if f is None:
+            raise AnalysisError(f"BaseLoader.{nm} vanished")
+        unpack = next((a for a in ast.walk(f.node) if isinstance(a, ast.Assign) and isinstance(a.targets[0], ast.Tuple) and "get_source" in norm(a.value, 200)), None)
+        if unpack is None or len(unpack.targets[0].elts) <= pos or not isinstance(unpack.targets[0].elts[pos], ast.Name):
+            raise AnalysisError(f"BaseLoader.{nm}: `source, name, uptodate, matter = self.get_source(…)` not found")
+        var = unpack.targets[0].elts[pos].id
+        n += 1
+        site = f"{f.file}:{f.node.lineno} BaseLoader.{nm}"
+        what = f"BaseLoader.{nm}: `{var}` goes from get_source() to from_string() untouched"
+        problems: list[tuple[int, str]] = []
+        fs_calls = [c for c in ast.walk(f.node) if isinstance(c, ast.Call) and isinstance(c.func, ast.Attribute) and c.func.attr == "from_string"]
+        if len(fs_calls) != 1:
+            problems.append((f.node.lineno, f"{len(fs_calls)} from_string() calls"))
+        else:
+            c = fs_calls[0]
+            arg = (c.args[0] if c.args else next((k.value for k in c.keywords if k.arg == "source"), None)) if field == "source" else next((k.value for k in c.keywords if k.arg == "overlay_data"), None)
+            if not (isinstance(arg, ast.Name) and arg.id == var):
+                problems.append((c.lineno, f"from_string() receives `{norm(arg, 50) if arg is not None else '<nothing>'}` instead of `{var}`"))
+        for x in ast.walk(f.node):
+            if isinstance(x, (ast.Assign, ast.AugAssign, ast.AnnAssign)) and x is not unpack:
+                tg = x.targets if isinstance(x, ast.Assign) else [x.target]
+                if any(isinstance(t, ast.Name) and t.id == var for t_ in tg for t in ast.walk(t_)):
+                    problems.append((x.lineno, f"`{norm(x, 60)}` rebinds or writes `{var}`"))
+            if isinstance(x, ast.Call) and not (fs_calls and x is fs_calls[0]):
+                if any(isinstance(a, ast.Name) and a.id == var for a in list(x.args) + [k.value for k in x.keywords]) or (isinstance(x.func, ast.Attribute) and isinstance(x.func.value, ast.Name) and x.func.value.id == var):
+                    problems.append((x.lineno, f"`{norm(x, 60)}` works on `{var}`"))
+            if isinstance(x, ast.Delete) and any(isinstance(t, ast.Subscript) and isinstance(t.value, ast.Name) and t.value.id == var for t in x.targets):
+                problems.append((x.lineno, f"`{norm(x, 60)}` deletes from `{var}`"))
+        if problems:
+            ln, p = problems[0]
+            tail = "the template is tokenized from another text than the one the loader returned (a stripped BOM, a normalised line end): every offset in tokens, analysis spans and error positions is shifted against the loader's source" if field == "source" else "the matter mapping is the loader's (usually the caller's) own dict, held by reference: rewriting keys in place or handing it to a helper that does changes the data the caller passed in"
+            res.fail(rule, file=f.file, line=ln, qualname=f"BaseLoader.{nm}", construct=f"BaseLoader.{nm}: the loader's {field} is not handed through untouched", message=f"BaseLoader.{nm}: {p} - {tail}", what=what)
+        else:
+            res.ok(rule, site, what, "unpacked once, passed once, never rebound or handed elsewhere")
+    res.floor(rule, "BaseLoader load functions", n, 2)
+
+
+def check_choice_loader_passthrough(prog: Program, res: Result, rule: str) -> None:
+    """A choice loader answers with the delegate's TemplateSource itself: every return inside the delegate loop of
+    ChoiceLoader.get_source[_async] is the (awaited) call of the delegate's get_source[_async] - rebuilding the tuple from some of its
+    fields drops the others (the matter mapping: one layer of the lookup precedence)."""
+    ci = prog.cls("liquid2.builtin.loaders.choice_loader.ChoiceLoader")
+    n = 0
+    for nm in ("get_source", "get_source_async"):
+        f = ci.methods.get(nm)
+        if f is None:
+            raise AnalysisError(f"ChoiceLoader.{nm} vanished")
+        loops = [lp for lp in ast.walk(f.node) if isinstance(lp, (ast.For, ast.AsyncFor))]
+        rets = [r for lp in loops for r in ast.walk(lp) if isinstance(r, ast.Return)]
+        site = f"{f.file}:{f.node.lineno} ChoiceLoader.{nm}"
+        what = f"ChoiceLoader.{nm}: returns the delegate's TemplateSource itself"
+        if not rets:
+            res.fail(rule, file=f.file, line=f.node.lineno, qualname=f"ChoiceLoader.{nm}", construct=f"ChoiceLoader.{nm}: no return inside the delegate loop", message=f"ChoiceLoader.{nm} no longer returns from its loop over the delegates: not decided", what=what)
+            continue
+        for r in rets:
+            n += 1
+            v = r.value.value if isinstance(r.value, ast.Await) else r.value
+            if isinstance(v, ast.Name):
+                defs = [a.value for lp in loops for a in ast.walk(lp) if isinstance(a, ast.Assign) and any(isinstance(t, ast.Name) and t.id == v.id for t in a.targets)]
+                v = (defs[0].value if isinstance(defs[0], ast.Await) else defs[0]) if len(defs) == 1 else v
+            if isinstance(v, ast.Call) and isinstance(v.func, ast.Attribute) and v.func.attr in ("get_source", "get_source_async"):
+                res.ok(rule, site, what, f"`{norm(r.value, 50)}`")
+            else:
+                res.fail(rule, file=f.file, line=r.lineno, qualname=f"ChoiceLoader.{nm}", construct=f"ChoiceLoader.{nm}: returns something else than the delegate's result", message=f"ChoiceLoader.{nm} returns `{norm(r.value, 60)}`: a TemplateSource rebuilt from part of the delegate's answer loses the rest - without `matter` a name bound in the template's matter resolves to the global below it", what=what)
+    res.floor(rule, "delegate returns of ChoiceLoader", n, 2)
+
+
+def check_no_lexical_path_normalisation(prog: Program, res: Result, rule: str) -> None:
+    """Template names are refused or accepted as written: nothing in the loaders collapses `x/..`, `.` or symlinks before the name is
+    guarded or used as a cache key (os.path.normpath / abspath / realpath, Path.resolve, PurePath normalisation via os.path)."""
+    BAD = ("normpath", "abspath", "realpath", "resolve", "expanduser", "expandvars", "normcase")
+    pos = ast.parse("def f(name):\n    import os\n    return os.path.normpath(name)\n")
+    if not any(isinstance(c, ast.Call) and isinstance(c.func, ast.Attribute) and c.func.attr in BAD for c in ast.walk(pos)):
+        raise AnalysisError(f"{rule}: positive example not matched")
+    n = 0
+    for mod in sorted(prog.modules.values(), key=lambda m: m.relpath):
+        if not (mod.relpath.startswith("liquid2/builtin/loaders/") or mod.relpath == "liquid2/loader.py"):
+            continue
+        for fi in mod.functions.values():
+            n += 1
+            for c in ast.walk(fi.node):
+                if isinstance(c, ast.Call) and ((isinstance(c.func, ast.Attribute) and c.func.attr in BAD) or (isinstance(c.func, ast.Name) and c.func.id in BAD)) and prog.enclosing_function(mod, c) is fi:
+                    res.fail(rule, file=mod.relpath, line=c.lineno, qualname=fi.qualname, construct=f"{fi.qualname}: lexical path normalisation `{norm(c.func)}`", message=f"{fi.qualname} calls `{norm(c, 60)}`: a name such as `snippets/../main.html` becomes `main.html` before the parent-directory guard (or the cache) sees it, so a name with `..` segments is served instead of failing with TemplateNotFoundError", what=f"{fi.qualname}: names are used as written")
+    res.ok(rule, "liquid2/loader.py, liquid2/builtin/loaders/*", "no loader function normalises a template name lexically", f"{n} functions; positive example matched")
+    res.floor(rule, "loader functions scanned", n, 30)
